@@ -94,11 +94,25 @@ fn is_cont(t: &Token) -> bool {
 /// All single layout edits of `src` (empty when the text does not lex).
 pub fn edits(src: &str) -> Vec<Edit> {
     let (toks, err) = lex_raw(src);
-    if err.is_some() {
-        return vec![];
-    }
     let mut out = vec![];
     let mk = |text: String, desc: String, kind: EditKind, at: usize, removed: usize, added: usize| Edit { text, desc, kind, at, removed, added };
+    // a text with a lexical error is edited up to the error; a too-large integer literal is
+    // itself respelled (separators added / removed must not change the verdict)
+    if let Some(e) = &err {
+        if e.kind == crate::refm::lex::LexErrKind::IntTooLarge {
+            if let Some(off) = pos_to_off(src, e.pos) {
+                let len = src[off..].chars().take_while(|c| c.is_ascii_digit() || *c == '_').count();
+                let text = &src[off..off + len];
+                if text.contains('_') {
+                    let stripped: String = text.chars().filter(|c| *c != '_').collect();
+                    out.push(mk(splice(src, off, len, &stripped), "too-large integer literal written without separators".to_string(), EditKind::Neutral, off, len, stripped.len()));
+                }
+                for k in 1..=len {
+                    out.push(mk(splice(src, off + k, 0, "_"), format!("`_` after digit {} of the too-large integer literal", k), EditKind::Neutral, off + k, 0, 1));
+                }
+            }
+        }
+    }
     for (i, t) in toks.iter().enumerate() {
         let next = toks.get(i + 1);
         let gap_end = next.map(|n| n.start).unwrap_or(src.len());
@@ -160,6 +174,13 @@ pub fn edits(src: &str) -> Vec<Edit> {
             let text = &src[t.start..t.end];
             for k in 1..=text.len() {
                 out.push(mk(splice(src, t.start + k, 0, "_"), format!("`_` after digit {} of integer token {}", k, i), EditKind::Neutral, t.start + k, 0, 1));
+            }
+        }
+        if let Tok::Int(_) = t.tok {
+            let text = &src[t.start..t.end];
+            if text.contains('_') {
+                let stripped: String = text.chars().filter(|c| *c != '_').collect();
+                out.push(mk(splice(src, t.start, text.len(), &stripped), format!("integer token {} written without separators", i), EditKind::Neutral, t.start, text.len(), stripped.len()));
             }
         }
         // i. an ASCII character of a plain string literal written as \xHH
